@@ -276,11 +276,27 @@ def check(ctx: Ctx, col: Collector, tier: str) -> None:
     registered = False
     if len(mloops) == 1:
         mnode, _, mel, mentry = mloops[0]
-        el = ListV((Sym("module_dir"), Sym("module_name"), Sym("module_text"), Const(False)), kind="tuple")
-        for o in run_body(sit, mnode, mentry.clone(), el):
-            adds = [e for e in new_effects(o, mentry) if e.kind in ("mutate", "call") and e.target == "created_module_paths.add"]
-            if adds and any("out_path" in repr(a.args[0]) for a in adds if a.args):
-                registered = True
+        # both kinds of stub can have the path of a placeholder stub (<dir>/<dir name>.sdsstub): the stub of a module, and the stub of a
+        # re-exported declaration that is named like the re-exporting package
+        per_kind = {}
+        unconditional = []
+        for is_pkg in (False, True):
+            el = ListV((Sym("module_dir"), Sym("module_name"), Sym("module_text"), Const(is_pkg)), kind="tuple")
+            per_kind[is_pkg] = False
+            for o in run_body(sit, mnode, mentry.clone(), el):
+                adds = [e for e in new_effects(o, mentry) if e.kind in ("mutate", "call") and e.target == "created_module_paths.add"]
+                if adds and any("out_path" in repr(a.args[0]) for a in adds if a.args):
+                    per_kind[is_pkg] = True
+                for a in adds:
+                    # registering a directory says "the file <dir>/<dir name>.sdsstub was written in this run": only true when the written file has that name
+                    if not any(v and ".stem" in k and ".name" in k and "==" in k for k, v in a.conds):
+                        unconditional.append(a)
+        registered = all(per_kind.values())
+        okc = not unconditional
+        (col.ok if okc else col.bad)("C10.WRITE-MODE", f"{GENSTUBS}::create_stub_files::registration-names-the-written-file", repo.loc(GENSTUBS, unconditional[0].node if unconditional else sfi.node),
+                                     "a directory is registered only when the file written into it is <dir>/<dir name>.sdsstub" if okc else f"`{ast.unparse(unconditional[0].node)[:70]}` is not under a test that the written file is named like its directory",
+                                     *([] if okc else ["a directory is registered as 'its placeholder file was written in this run' for every stub written into it (e.g. the stub of a re-exported declaration): the placeholder "
+                                                       "stub of that directory, left by an earlier run, is then appended to instead of rewritten - a second run into the same output directory declares the placeholder classes twice"]))
     (col.ok if registered else col.bad)("C10.WRITE-MODE", f"{GENSTUBS}::create_stub_files::module-stubs-registered", repo.loc(GENSTUBS, sfi.node),
                                         "the path of a written module stub (relative to the output directory) is added to the created-paths set the placeholder writer consults" if registered
                                         else "no registration of module stub paths",
